@@ -3,7 +3,7 @@ Theorems: coq/Properties/C13.v over Model/Hardlink.v (small-step interleaving ma
 Tie: end-to-end runs of the real binary with -H on generated link-group partitions and worker counts
 (termination decided by a wall-clock bound, inode classes compared with the source), a natural fault
 (the first copy of a group fails), and the model's exhaustive exploration statistics."""
-import os, json, time, shutil, subprocess
+import os, subprocess, json, time, shutil, subprocess
 import vlib, world, engine_world as ew
 from common import proof_phase, TRUSTED_COMMON
 
@@ -269,6 +269,68 @@ def run(tier, seed):
                 viol.append({"world": "big%d" % i, "sizes": [big, newsize], "flags": hl, "why": "; ".join(why), "klass": None})
             shutil.rmtree(base, ignore_errors=True)
         sc.env.clear(); sc.env.update(env_old)
+        # (88672a3) a group of 2..4 names whose old and new version agree in size and time stamp (--checksum / --ignore-times); the update
+        # of ONE name fails (its working-file name is taken by a directory): every other name must hold the source's bytes afterwards, the
+        # failure must be visible, and the failed name keeps what it had.  (3b1f2c2) a pass that cannot restore a link is an error.
+        stale_runs = relink_fail_runs = 0
+        for i in range(4 if tier == "quick" else 16):
+            base = os.path.join(sc.dir, "sm%d" % i)
+            src, dst = base + "/src", base + "/dst"
+            os.makedirs(src); os.makedirs(dst)
+            k = 2 + i % 3
+            names = ["m%d.dat" % q for q in range(k)]
+            size = [6, 5000, 120000][i % 3]
+            new, old = world.pbytes(4000 + i, size), world.pbytes(4100 + i, size)
+            victim = names[(i // 2) % k]                      # first, middle or last of the group
+            with open(os.path.join(src, names[0]), "wb") as f:
+                f.write(new)
+            for nm in names[1:]:
+                os.link(os.path.join(src, names[0]), os.path.join(src, nm))
+            for nm in names:
+                with open(os.path.join(dst, nm), "wb") as f:
+                    f.write(old)
+            os.link(os.path.join(dst, victim), os.path.join(dst, "zz_second_name"))      # the victim is replaced through a working file ...
+            os.makedirs(os.path.join(dst, victim + ".sy.tmp", "blocker"))               # ... whose name is taken
+            for root in (src, dst):
+                for nm in names:
+                    os.utime(os.path.join(root, nm), ns=((world.T0 + 5000) * 10**9,) * 2)
+            mode = ["--checksum", "--ignore-times"][i % 2]
+            rr = world.run_sy([src, dst, "-H", mode, "-q", "-j%d" % [1, 4][i % 2]], sc, timeout=60)
+            stale_runs += 1
+            why = []
+            if rr.get("timeout"):
+                why.append("did not terminate")
+            if rr["rc"] == 0:
+                why.append("exit status 0 although the update of %s failed" % victim)
+            for nm in names:
+                if nm != victim and world.sha(os.path.join(dst, nm)) != world.sha(os.path.join(src, nm)):
+                    why.append("%s, whose update did not fail, does not hold the source's bytes (moved onto the stale %s?)" % (nm, victim))
+            if why:
+                viol.append({"world": "stale-member%d" % i, "names": names, "failing": victim, "mode": mode, "why": "; ".join(why), "klass": None})
+            shutil.rmtree(base, ignore_errors=True)
+        for i in range(2 if tier == "quick" else 6):
+            base = os.path.join(sc.dir, "rf%d" % i)
+            src, dst = base + "/src", base + "/dst"
+            for d_ in (src + "/p", src + "/q", dst + "/p", dst + "/q"):
+                os.makedirs(d_)
+            with open(src + "/p/a", "wb") as f:
+                f.write(world.pbytes(4300 + i, 700))
+            os.link(src + "/p/a", src + "/q/b")
+            os.utime(src + "/p/a", ns=((world.T0 + 6000) * 10**9,) * 2)
+            subprocess.run(["cp", "-p", src + "/p/a", dst + "/p/a"], check=True); subprocess.run(["cp", "-p", src + "/p/a", dst + "/q/b"], check=True)
+            frozen = [dst + "/p", dst + "/q"] if i % 2 == 0 else [dst + "/q"]
+            if subprocess.run(["chattr", "+i"] + frozen, stderr=subprocess.DEVNULL).returncode != 0:
+                shutil.rmtree(base, ignore_errors=True)
+                continue                          # no immutable flag on this file system: the world cannot be built
+            try:
+                rr = world.run_sy([src, dst, "-H", "-q"], sc, timeout=60)
+            finally:
+                subprocess.run(["chattr", "-i"] + frozen)
+            relink_fail_runs += 1
+            one = os.stat(dst + "/p/a").st_ino == os.stat(dst + "/q/b").st_ino
+            if not one and rr["rc"] == 0:
+                viol.append({"world": "relink-fails%d" % i, "why": "the names of a multiply-linked source file are on two inodes after -H (the directory of a name is immutable: link/rename fail) and the exit status is 0", "klass": None})
+            shutil.rmtree(base, ignore_errors=True)
     # model-level exploration statistics (kernel-evaluated), recorded as support
     stats = vlib.coq_eval_list("From Coq Require Import List. Import ListNotations.\nFrom SyModel Require Import Hardlink.",
                                "List.map (fun n => length (fst (explore 400000 false true true [] [init n]))) [1;2;3]", tag="c13")
@@ -279,6 +341,8 @@ def run(tier, seed):
     res.cov["fault_runs_hung"] = hangs
     res.cov["late_failure_gap_runs"] = ng
     res.cov["big_destination_second_name_runs"] = big_runs
+    res.cov["group_member_whose_update_fails_runs"] = stale_runs
+    res.cov["relink_pass_fails_runs"] = relink_fail_runs
     res.cov["late_failure_gap_runs_hung"] = gap_hangs
     res.cov["late_failure_gap_runs_where_the_failing_member_owned"] = owner_failed
     res.cov["known_finding_hits"] = {k: len(v) for k, v in hits.items()}
